@@ -238,6 +238,25 @@ def parse_blocks(text):
     return blocks
 
 
+def purge_stale_scratch(max_age=3 * 3600):
+    """scratch directories of runs that were killed before their clean-up (older than max_age seconds)"""
+    import time
+    now = time.time()
+    for base, pref in ((os.path.join(CACHE, "run"), ""), (CACHE, "cap-"), (CACHE, "c16-")):
+        try:
+            names = os.listdir(base)
+        except OSError:
+            continue
+        for n in names:
+            d = os.path.join(base, n)
+            if n.startswith(pref) and (pref or base.endswith("run")) and os.path.isdir(d):
+                try:
+                    if now - os.path.getmtime(d) > max_age:
+                        shutil.rmtree(d, ignore_errors=True)
+                except OSError:
+                    pass
+
+
 class Runner:
     def __init__(self, prop_id, tier):
         self.prop_id = prop_id
@@ -245,6 +264,7 @@ class Runner:
         self.dir = os.path.join(CACHE, "run", "%s-%d" % (prop_id, os.getpid()))
         shutil.rmtree(self.dir, ignore_errors=True)
         os.makedirs(self.dir, exist_ok=True)
+        purge_stale_scratch()
         self.n = 0
         self.call_timeout = None   # set while shrinking: a hanging candidate must not stall the check
 
